@@ -18,7 +18,8 @@ func init() {
 			Explanation: "Decides only the sentence 'while a response is paused the responder sends no further block data' and the pause/resume protocol structure: " +
 				"(R1) in the query executor every path that queues a pause status returns a non-nil error from the transaction (infeasible nil-branches pruned by type-assertion facts), the transaction returns its closure's error unchanged, and after a non-nil send error the traversal loop exits without another load; " +
 				"(R1b) a response paused by its request hooks is not queued; (R2) requestor pause: on a non-context-cancel error the executor sends a cancel for its own request to its own peer and takes the loader offline before releasing the task; " +
-				"(R3) resume: both unpause handlers act only on a Paused entry and re-queue it (state and queue together), and the requestor's re-request carries the traversed-block skip count (C24.R2). " +
+				"(R3) resume: both unpause handlers act only on a Paused entry and re-queue it (state and queue together), and the requestor's re-request carries the traversed-block skip count (C24.R2); " +
+				"(R4) the requestor's traversal record, against which the responder's metadata is replayed after a resume, receives every finished load attempt whatever its outcome, with that attempt's own success flag. " +
 				"Not decided: equality of delivered nodes / errors / stored blocks with the uninterrupted exchange for any pause index and timing (run-time values).",
 			Assumptions: append([]string{"ResponseStream.Transaction is implemented by responseStream.Transaction (checked to return the closure's error)"}, commonTrust...),
 			Technique:   "feasible-path must-analysis with nil facts from type assertions, guard dominance, ordering by dominance",
@@ -48,6 +49,8 @@ func runC06(c *engine.Ctx) {
 	r1b := c.Rule("R1b", "a response paused at creation is not queued", 1)
 	r2 := c.Rule("R2", "requestor pause: cancel message to the request's peer and loader offline before the task is released", 1)
 	r3 := c.Rule("R3", "unpause only from Paused; re-queue with state and queue together", 1)
+	r4 := c.Rule("R4", "every finished load attempt (failed ones too) enters the traversal record, with its own outcome, before the next load", 1)
+	c06Record(c, r4)
 
 	qe := "responsemanager/queryexecutor"
 	n := 0
@@ -76,7 +79,7 @@ func runC06(c *engine.Ctx) {
 						if _, isMI := r.Results[len(r.Results)-1].(*ssa.MakeInterface); isMI {
 							return
 						}
-						if knownNonNilAt(r, v) || knownNonNilAt(ci.Instr, v) || provablyNonNilError(v, r) {
+						if knownNonNilAt(r, v) || knownNonNilAt(ci.Instr, v) || provablyNonNilError(v, engine.InstrConds(r)) {
 							return
 						}
 						// phi of non-nil things
@@ -162,7 +165,7 @@ func runC06(c *engine.Ctx) {
 				if errv != nil && engine.KnownNil(engine.InstrConds(r), errv) {
 					continue
 				}
-				if !engine.IsNilConst(v) && (provablyNonNilError(v, r) || knownNonNilAt(r, v)) {
+				if !engine.IsNilConst(v) && (provablyNonNilError(v, engine.InstrConds(r)) || knownNonNilAt(r, v)) {
 					continue
 				}
 				bad = "can return at " + c.P.Pos(r.Pos()) + " without handing on the error of " + engine.FuncName(ci.Static) + " (which may have queued a pause status)"
@@ -382,4 +385,81 @@ func isBoxedConst(v ssa.Value) bool {
 func valueOf(in ssa.Instruction) ssa.Value {
 	v, _ := in.(ssa.Value)
 	return v
+}
+
+// c06Record: R4.  A resumed request replays the responder's metadata against the traversal record; a load attempt
+// missing from the record (e.g. a failed one) makes the replay refuse an honest response.
+func c06Record(c *engine.Ctx, rule string) {
+	rl := "requestmanager/reconciledloader"
+	rec := c.P.Func(rl+"/traversalrecord", "TraversalRecord", "RecordNextStep")
+	empty := c.P.Func(rl, "loadAttempt", "empty")
+	succF := c.P.Field(rl, "loadAttempt", "successful")
+	attemptF := c.P.Field(rl, "ReconciledLoader", "mostRecentLoadAttempt")
+	if rec == nil || empty == nil || succF == nil || attemptF == nil {
+		c.AnchorMissing(rule, "traversalrecord.RecordNextStep / reconciledloader.loadAttempt{empty,successful} / ReconciledLoader.mostRecentLoadAttempt")
+		return
+	}
+	isRec := func(in ssa.Instruction) bool {
+		cc, ok := in.(*ssa.Call)
+		return ok && cc.Call.StaticCallee() == rec
+	}
+	n := 0
+	for _, f := range c.P.FuncsIn(rl) {
+		if engine.FuncPkgPath(f) != engine.Module+"/"+rl {
+			continue
+		}
+		var recCall *ssa.Call
+		engine.Instrs(f, func(in ssa.Instruction) {
+			if isRec(in) {
+				recCall = in.(*ssa.Call)
+			}
+		})
+		if recCall == nil {
+			continue
+		}
+		n++
+		key := engine.FuncName(f)
+		c.Analysed(key)
+		// the branch on "is there a finished attempt?"
+		var start *ssa.BasicBlock
+		for _, b := range f.Blocks {
+			ifi, ok := b.Instrs[len(b.Instrs)-1].(*ssa.If)
+			if !ok {
+				continue
+			}
+			v, pol := ifi.Cond, true
+			for {
+				u, ok := v.(*ssa.UnOp)
+				if !ok || u.Op != token.NOT {
+					break
+				}
+				v, pol = u.X, !pol
+			}
+			if call, ok := v.(*ssa.Call); ok && call.Call.StaticCallee() == empty {
+				start = engine.CondSucc(ifi, !pol) // empty() == false
+			}
+		}
+		if start == nil {
+			c.Undecided(rule, key+"|records-every-attempt", recCall.Pos(), "cannot find the test for a pending load attempt (loadAttempt.empty)")
+			continue
+		}
+		ok, _ := engine.MustReachFromBlock(start, isRec, nil)
+		c.Decide(rule, key+"|records-every-attempt", recCall.Pos(), ok,
+			"whenever a finished load attempt is pending it is written to the traversal record",
+			"a finished load attempt can be dropped without entering the traversal record (extra condition on the way to RecordNextStep): after a pause the responder's replayed metadata no longer matches the record and an honest response is refused")
+		flag := recCall.Call.Args[len(recCall.Call.Args)-1]
+		fl, base := engine.LoadedField(flag)
+		fromAttempt := false
+		if fl == succF && base != nil {
+			if fa, isFA := base.(*ssa.FieldAddr); isFA && engine.FieldOf(fa) == attemptF {
+				fromAttempt = true
+			}
+		}
+		c.Decide(rule, key+"|records-own-outcome", recCall.Pos(), fromAttempt,
+			"the recorded success flag is the pending attempt's own",
+			"the success flag written to the traversal record is not the pending attempt's own outcome")
+	}
+	if n == 0 {
+		c.AnchorMissing(rule, "a call of TraversalRecord.RecordNextStep in reconciledloader")
+	}
 }
